@@ -199,6 +199,37 @@ def prove(pid, extra_targets=()):
     return res
 
 
+def coqchk(pid, timeout=5400):
+    """Independent re-check of the compiled property file and everything it depends on (coqchk -o).
+    -> dict(completed, ok, axioms, assumed) — `assumed` lists anything relying on type-in-type, unsafe
+    (co)fixpoints or assumed positivity (must be empty)."""
+    t0 = time.time()
+    rc, out, _ = sh(["coqchk", "-silent", "-o"] + COQFLAGS + [f"TT.{pid}"], cwd=COQ, timeout=timeout)
+    res = dict(completed=rc != 124, ok=False, wall_s=round(time.time() - t0, 1), axioms=[], assumed=[])
+    if rc == 124:
+        return res
+    m = re.search(r"CONTEXT SUMMARY(.*)", out, re.S)
+    if rc != 0 or not m:
+        res["log"] = out[-1500:]
+        return res
+    summ = m.group(1)
+
+    def section(title):
+        mm = re.search(r"\* " + re.escape(title) + r"[^:]*:(.*?)(?=\n\* |\Z)", summ, re.S)
+        if not mm:
+            return []
+        body = mm.group(1).strip()
+        if body.startswith("<none>"):
+            return []
+        return [ln.strip() for ln in body.split("\n") if ln.strip()]
+    res["axioms"] = section("Axioms")
+    for title in ("Constants/Inductives relying on type-in-type", "Constants/Inductives relying on unsafe (co)fixpoints",
+                  "Inductives whose positivity is assumed"):
+        res["assumed"] += section(title)
+    res["ok"] = not res["assumed"] and "Theory: Set is predicative" in summ
+    return res
+
+
 # ----------------------------------------------------------------------------- literals
 
 def frac(x) -> Fraction:
@@ -389,6 +420,8 @@ class Report:
             rule=self.rule, samples=self.samples or ["(no correspondence cases on this run)"],
             known_findings_reproduced=n_known, timings_s=self.timings,
         )
+        if pr.get("coqchk"):
+            cov["coqchk"] = pr["coqchk"]      # thorough tier: independent re-check with `coqchk -o`
         if self.exhaustive is not None:
             if isinstance(self.exhaustive, bool):
                 cov["exhaustive"] = self.exhaustive
@@ -433,6 +466,16 @@ def handle_proof(rep: Report, pid, search=None, extra_targets=()):
         if prim:
             rest.append(f"<{len(prim)} Uint63/PrimInt63 primitive-integer specs of the standard library>")
         log(f"[{pid}] prove: {pr['discharged']}/{pr['obligations']} theorems, axioms: {rest or 'closed'}")
+        if rep.tier == "thorough" and os.environ.get("VERIF_COQCHK", "1") != "0":
+            ck = coqchk(pid)
+            pr["coqchk"] = dict(ck, axioms=[a for a in ck["axioms"] if not a.startswith(("Coq.Numbers.Cyclic", "Coq.Floats"))][:60],
+                                n_axioms_all_loaded_libraries=len(ck["axioms"]))
+            log(f"[{pid}] coqchk -o: completed={ck['completed']} ok={ck['ok']} in {ck['wall_s']}s; "
+                f"{len(ck['axioms'])} axioms over all loaded libraries; assumed (must be empty): {ck['assumed']}")
+            if ck["completed"] and not ck["ok"]:
+                rep.violation(f"{pid}:coqchk-rejects", f"the independent checker does not accept prop/{pid}.vo and its "
+                              f"dependencies: {ck.get('log', ck['assumed'])}", dict(broken=f"coqchk TT.{pid}"), False)
+                return False
         return True
     log(f"[{pid}] prove: BROKEN at {pr['failed_at']}\n{pr['log'][-1500:]}")
     found = search() if search else None
